@@ -131,6 +131,30 @@ def check_image(rec, n, nbins, idx, shard=False):
     return fails
 
 
+def check_specks(out):
+    """runs of k one-cell specks next to two droplets: every droplet not larger than the minimal radius is removed"""
+    from pde import CartesianGrid, ScalarField
+
+    from droplets.image_analysis import locate_droplets
+
+    for k in range(0, 8):
+        for dx in (1.0, 0.5):
+            for per in (False, True):
+                n = 2 * k + 14
+                data = np.zeros(n)
+                for i in range(k):
+                    data[1 + 2 * i] = 1.0
+                data[2 * k + 2 : 2 * k + 5] = 1.0
+                data[2 * k + 7 : 2 * k + 11] = 1.0
+                grid = CartesianGrid([[0, n * dx]], n, periodic=per)
+                for rmin, want in ((0.5 * dx, [1.5 * dx, 2.0 * dx]), (0.0, [0.5 * dx] * k + [1.5 * dx, 2.0 * dx]), (1.5 * dx, [2.0 * dx])):
+                    got = sorted(float(d.radius) for d in locate_droplets(ScalarField(grid, data), threshold=0.5, minimal_radius=rmin))
+                    out.evaluations += 1
+                    if got != sorted(want):
+                        out.violation({"specks": {"k": k, "dx": dx, "periodic": per, "minimal_radius": rmin},
+                                       "fails": [f"radii {got}, expected {sorted(want)} (droplets with radius > minimal_radius)"]})
+
+
 def _chunk(args):
     items, n, nbins, shard = args
     core.setup_repo_import()
@@ -253,6 +277,7 @@ def run(out: core.Outcome) -> None:
         out.nontrivial_count += sum(1 for _, rec in items if len(set(rec["img"])) > 1)
         out.parts[name].update(images=len(items), mismatches=nbad)
         out.sample({"config": name, "image": r.printed[len(r.printed) // 3]}, limit=3)
+    check_specks(out)
     nrand = 160 if out.tier == "quick" else 3200
     per = nrand // core.NCPU
     with mp.get_context("fork").Pool(core.NCPU) as pool:
